@@ -123,6 +123,30 @@ def brute_force(run, lmax, tier):
                             fail("Wigner.Yindex", {"ell": l, "m": mp, "cfg": [ell_max, ell_min, mp_max]}, "free function", "differs")
                 if (w.Hsize, w.dsize, w.Dsize, w.Ysize) != (ix.WignerHsize(w.mp_max, ell_max), ix.WignerDsize(ell_min, w.mp_max, ell_max), ix.WignerDsize(ell_min, w.mp_max, ell_max), ix.Ysize(ell_min, ell_max)):
                     fail("Wigner.sizes", {"cfg": [ell_max, ell_min, mp_max]}, "free functions", "differs")
+    # integer argument types: numpy integer scalars of every width denote the same integers as Python ints
+    for tname, T, ell_max, ells in (("int8", np.int8, 24, [0, 3, 10, 11, 12, 24]), ("int16", np.int16, 200, [5, 127, 128, 180, 181, 200]),
+                                    ("int32", np.int32, 24, [0, 11, 24]), ("uint8", np.uint8, 24, [0, 11, 16, 24]), ("int64", np.int64, 200, [181, 200])):
+        for ell_min, mp_max in ((0, None), (2, 3)):
+            w = sf.Wigner(ell_max, ell_min, mp_max) if mp_max is not None else sf.Wigner(ell_max)
+            for l in ells:
+                if l < ell_min:
+                    continue
+                for mp, m in ((0, 0), (min(l, w.mp_max), -l), (-min(l, w.mp_max), l), (min(1, l), min(2, l))):
+                    if tname.startswith("u") and (mp < 0 or m < 0):
+                        continue
+                    run.gap_case("brute:integer-types", (tname, ell_max, ell_min, l, mp, m), tname)
+                    for name, got, want in (("Wigner.Yindex", lambda: w.Yindex(T(l), T(m)), lambda: w.Yindex(l, m)), ("Wigner.Dindex", lambda: w.Dindex(T(l), T(mp), T(m)), lambda: w.Dindex(l, mp, m)),
+                                            ("Wigner.dindex", lambda: w.dindex(T(l), T(mp), T(m)), lambda: w.dindex(l, mp, m)), ("Wigner.Hindex", lambda: w.Hindex(T(l), T(mp), T(m)), lambda: w.Hindex(l, mp, m)),
+                                            ("Yindex", lambda: ix.Yindex(T(l), T(m), T(ell_min)), lambda: ix.Yindex(l, m, ell_min)),
+                                            ("WignerDindex", lambda: ix.WignerDindex(T(l), T(mp), T(m), T(ell_min), T(w.mp_max)), lambda: ix.WignerDindex(l, mp, m, ell_min, w.mp_max)),
+                                            ("WignerHindex", lambda: ix.WignerHindex(T(l), T(mp), T(m), T(w.mp_max)), lambda: ix.WignerHindex(l, mp, m, w.mp_max))):
+                        try:
+                            a, b = got(), want()
+                        except Exception as e:
+                            fail(name, {"ell": l, "mp": mp, "m": m, "argument_type": tname, "cfg": [ell_max, ell_min, mp_max]}, "same as with Python ints", repr(e))
+                            continue
+                        if int(a) != int(b):
+                            fail(name, {"ell": l, "mp": mp, "m": m, "argument_type": tname, "cfg": [ell_max, ell_min, mp_max]}, int(b), int(a))
     # large arguments: exact counts by direct big-integer summation of the documented loops (no closed form involved)
     rng = run.rng
     for _ in range(14 if tier == "quick" else 120):
